@@ -1,8 +1,62 @@
-(** C04 — draft stub (replaced below once the proofs exist) *)
+(** C04 — the DASer never loses a block height, including across restarts.
+    Property theorems only; each is closed by [exact] of a lemma proved in Das/*.v.
+
+    Model: Das/Coordinator.v ([step], over the event alphabet NewHead / Deliver / Wake / Checkpoint / Step / Tick /
+    Stop / Crash / Restart; [run c init es] is the state after the history [es]).  [vr c = repaired] is the tree with
+    fix-c04-1 and fix-c13-1..3 applied; ghost fields: [sampled] (heights the sampler has answered nil or
+    outside-window for), [lo] (the DASer's starting point: the largest store tail a start has seen), [storehead]. *)
 From Coq Require Import List ZArith.
-From CN Require Import Das.Coordinator.
+From CN Require Import Das.Coordinator Das.Invariant Das.Theorems Das.Witness.
 Import ListNotations.
 Open Scope Z_scope.
-Theorem C04_stub : run (mkCfg 1 1 [] repaired) init [] = init.
-Proof. reflexivity. Qed.
-Print Assumptions C04_stub.
+
+(** Every height between the starting point and the newest head is, in every reachable state (whatever the history of
+    heads, worker steps with any outcome, deliveries, statistics/checkpoint requests, ticks, stops, crashes, restarts),
+    sampled (or skipped), in flight in a worker, queued for catch-up, or recorded as failed / being retried. *)
+Theorem C04_cover_inv : forall c es h,
+  vr c = repaired /\ 1 <= limit c /\ 1 <= range c ->
+  let s := run c init es in
+  lo s <= h <= head s ->
+  In h (sampled s) \/ in_flight s h \/ next s <= h \/ lookup h (failed s) <> None \/ lookup h (inretry s) <> None.
+Proof. exact cover_inv. Qed.
+Print Assumptions C04_cover_inv.
+
+(** The sampled-chain head reported by the statistics is below every height that has not been sampled. *)
+Theorem C04_sampled_head_safe : forall c es h,
+  vr c = repaired /\ 1 <= limit c /\ 1 <= range c ->
+  let s := run c init es in
+  lo s <= h <= sampled_chain_head s -> In h (sampled s).
+Proof. exact sampled_head_safe. Qed.
+Print Assumptions C04_sampled_head_safe.
+
+(** Restart coverage, for EVERY point at which a checkpoint can be taken or lie on disk: [p] is the checkpoint that
+    newCheckpoint yields in the reachable state [s] (background store, both checkpoints of Stop) or the one persisted
+    earlier; the process goes down with [p] in its datastore and starts again with any store tail / head.  Every height
+    from the starting point up to the new head that had not been sampled when [p] was written is in flight, queued or
+    failed afterwards, and the new head is not below the old one. *)
+Theorem C04_restart_cover : forall c es p tail hd picks h,
+  vr c = repaired /\ 1 <= limit c /\ 1 <= range c ->
+  let s := run c init es in
+  (p = cp_of c s \/ persisted s = Some p) -> 1 <= tail ->
+  let s' := step c (down_with s p) (Restart tail hd picks) in
+  Z.max (lo s) tail <= h <= head s' ->
+  (In h (sampled s) \/ in_flight s' h \/ next s' <= h \/ lookup h (failed s') <> None \/ lookup h (inretry s') <> None)
+  /\ running s' = true /\ head s <= head s'.
+Proof. exact restart_cover. Qed.
+Print Assumptions C04_restart_cover.
+
+(** The same history that loses height 4 before the fix keeps it in flight afterwards (non-vacuity: a restart with a
+    recent job in flight at the stop checkpoint). *)
+Theorem C04_restart_cover_nonvacuous :
+  let c := mkCfg 10 1 tbl repaired in let s := run c init hist_a in
+  valid c /\ running s = true /\ lo s <= 4 <= head s /\ ~ In 4 (sampled s) /\ in_flight s 4.
+Proof. exact restart_cover_nonvacuous. Qed.
+Print Assumptions C04_restart_cover_nonvacuous.
+
+(** The defect repaired by fix-c04-1 (DESIGN.md section 6): on the code before the fix the coverage statement is false —
+    catch-up done to 3, head 4 being sampled, Stop, Restart: height 4 is neither sampled nor anywhere in the state. *)
+Theorem C04_restart_cover_refuted :
+  exists c es h, vr c = mkVariant false true true true /\ 1 <= limit c /\ 1 <= range c /\
+    let s := run c init es in running s = true /\ lo s <= h <= head s /\ ~ covered s h.
+Proof. exact restart_cover_refuted. Qed.
+Print Assumptions C04_restart_cover_refuted.
